@@ -8,7 +8,7 @@
 //! `sniff=<0|1>` | `panic <msg>` | `hang` | `abort`.
 //!
 //! Every case is executed in a *worker child process* (this same binary, `--worker`), driven over
-//! pipes with a 2 s watchdog: a hang kills and respawns the worker (answer `hang`), a crash of the
+//! pipes with a watchdog (2 s of CPU time per case): a hang kills and respawns the worker (answer `hang`), a crash of the
 //! worker (allocation failure abort, stack overflow) is answer `abort`.
 //!
 //! Property oracle, evaluated on the implementation's own outcome (independent of the Lean model):
@@ -359,36 +359,68 @@ impl Runner {
         }
     }
 
-    /// Run one case in the worker; returns (answer, seconds).
+    /// Run one case in the worker; returns (answer, CPU seconds the worker spent on it).
+    ///
+    /// Watchdog: a case is a `hang` when the worker has burnt ≥ 2 s of CPU time on it (the inputs are
+    /// ≤ ~2 MB and decode in milliseconds), or has not answered after 120 s of wall time. Measuring CPU
+    /// time rather than wall time keeps the verdict stable on a heavily loaded machine.
     fn run(&mut self, mode: &str, hex: &str) -> (String, f64) {
         if self.w.is_none() {
             self.w = Some(self.spawn());
         }
         // After many hangs (broken tree) shorten the watchdog so the run still finishes.
-        let limit = if self.hangs > 30 { Duration::from_millis(400) } else { Duration::from_secs(2) };
-        let t0 = Instant::now();
+        let cpu_limit = if self.hangs > 30 { 0.4 } else { 2.0 };
         let w = self.w.as_mut().unwrap();
+        let pid = w.child.id();
+        let cpu0 = cpu_secs(pid);
+        let t0 = Instant::now();
         let sent = writeln!(w.stdin, "{mode} {hex}").and_then(|_| w.stdin.flush());
-        let ans = if sent.is_err() {
-            Err(RecvTimeoutError::Disconnected)
-        } else {
-            w.rx.recv_timeout(limit)
-        };
-        let dt = t0.elapsed().as_secs_f64();
+        let mut ans = if sent.is_err() { Err(RecvTimeoutError::Disconnected) } else { Err(RecvTimeoutError::Timeout) };
+        if sent.is_ok() {
+            loop {
+                match w.rx.recv_timeout(Duration::from_millis(250)) {
+                    Ok(a) => {
+                        ans = Ok(a);
+                        break;
+                    }
+                    Err(RecvTimeoutError::Disconnected) => {
+                        ans = Err(RecvTimeoutError::Disconnected);
+                        break;
+                    }
+                    Err(RecvTimeoutError::Timeout) => {
+                        let used = cpu_secs(pid) - cpu0;
+                        if used >= cpu_limit || t0.elapsed().as_secs_f64() > 120.0 {
+                            break;
+                        }
+                    }
+                }
+            }
+        }
+        let used = (cpu_secs(pid) - cpu0).max(0.0);
         match ans {
-            Ok(a) => (a, dt),
+            Ok(a) => (a, used),
             Err(RecvTimeoutError::Timeout) => {
                 self.hangs += 1;
                 self.kill();
-                ("hang".into(), dt)
+                ("hang".into(), used)
             }
             Err(RecvTimeoutError::Disconnected) => {
                 self.aborts += 1;
                 self.kill();
-                ("abort".into(), dt)
+                ("abort".into(), used)
             }
         }
     }
+}
+
+/// CPU time (user + system) consumed so far by process `pid`, in seconds (Linux /proc).
+fn cpu_secs(pid: u32) -> f64 {
+    let Ok(s) = std::fs::read_to_string(format!("/proc/{pid}/stat")) else { return 0.0 };
+    // fields after the ")" that closes the command name: state is field 3, utime 14, stime 15
+    let Some(i) = s.rfind(')') else { return 0.0 };
+    let f: Vec<&str> = s[i + 1..].split_whitespace().collect();
+    let get = |k: usize| f.get(k).and_then(|x| x.parse::<f64>().ok()).unwrap_or(0.0);
+    (get(11) + get(12)) / 100.0
 }
 
 // ---------------------------------------------------------------- wire format helpers
@@ -1085,7 +1117,7 @@ fn run(args: &Args) {
     cx.runner.kill();
     let _ = std::fs::remove_file(&cx.runner.tmp);
     let note = format!(
-        "outcomes: ok={} err={} hangs={} aborts={}; slowest case {:.3}s (watchdog 2s)",
+        "outcomes: ok={} err={} hangs={} aborts={}; most CPU time spent on one case {:.3}s (watchdog: 2s CPU)",
         cx.n_ok, cx.n_err, cx.runner.hangs, cx.runner.aborts, cx.slow
     );
     cx.out.note(&note);
